@@ -275,6 +275,18 @@ pub fn derive_from_decode(ctx: &mut Ctx, v: &J) {
         None => vec![(v["ty"].clone(), v["expect"]["accept"].clone())],
     };
     let default_sfx: Vec<Vec<u8>> = vec![vec![0], vec![0xf6], vec![0xff], vec![0x1c], vec![0xa0], vec![0x40, 0x40]];
+    if prop == "C01" {
+        // every wire of the decode instances (accepted or not, whatever type it was written for) through all byte-level
+        // entry points with follow-ups: a panic anywhere is a C01 matter
+        for w in v["wires"].as_array().cloned().unwrap_or_default() {
+            if let Ok(b) = bytes_of(&w) {
+                if !ctx.distinct.contains(&crate::runner::hash_pub(&json!(hex(&b)))) {
+                    crate::runner6::fuzz_one(ctx, &b, "decode-instance-wire");
+                }
+            }
+        }
+        return;
+    }
     for (ty, _acc) in tys {
         for w in v["wires"].as_array().cloned().unwrap_or_default() {
             let b = match bytes_of(&w) {
